@@ -19,5 +19,6 @@ def conditions(tier):
     cs += _c.shape_conditions("compile_history", "c07", ["rules"], T=900)
     if tier == "thorough":
         cs += _c.shape_conditions("compile_history", "c07", ["feature", "rule1"], T=1800)
+    cs += _c.source_level(tier)
     cs.append(Cond(_c.M, "twin_never_pickles", {"ctx": "feature"}, T=120, expect="cex"))
     return cs
